@@ -11,6 +11,9 @@ CONSTANTS
   DoEmit = FALSE
   Bug = "none"
   Hist = 0
+  DsHist = 0
+  DsOps = {}
+  NMon = 0
   Shape = "any"
 SYMMETRY Sym
 INVARIANT TypeOK
